@@ -111,7 +111,7 @@ def run(ctx):
     sx = []
     hist2 = {}
     for _ in range(nb):
-        g = progs.Gen(rng.fork(), feat=dict(strs=True))
+        g = progs.Gen(rng.fork(), feat=dict(strs=True, refassign=rng.chance(1, 2)))
         sx.append(g.program(rng.range(2, 5)))
         for k, v in g.hist.items():
             hist2[k] = hist2.get(k, 0) + v
